@@ -747,6 +747,9 @@ func (e *Env) trCall(x *ECall) TV {
 			e.fail("cast needs a type string literal")
 		}
 		_, ty := e.resolveType(lit.Val)
+		if bt := preciseBasic(lit.Val); bt != nil {
+			ty = bt
+		}
 		if ty == nil {
 			e.fail("cast: unknown type %s", lit.Val)
 		}
@@ -758,6 +761,9 @@ func (e *Env) trCall(x *ECall) TV {
 			e.fail("typeid needs a string literal")
 		}
 		_, ty := e.resolveType(lit.Val)
+		if bt := preciseBasic(lit.Val); bt != nil {
+			ty = bt
+		}
 		if ty == nil {
 			e.fail("typeid: unknown type %s", lit.Val)
 		}
@@ -768,6 +774,13 @@ func (e *Env) trCall(x *ECall) TV {
 			return TV{T: Select(g, argOf(0).T), Ty: boolT}
 		}
 		e.fail("visited() outside a map range loop")
+	case "trunc": // trunc(x): Go's conversion of a float64 to an integer type (truncation toward zero)
+		need(1)
+		x := argOf(0).T
+		if x.Sort != SReal {
+			e.fail("trunc of sort %s", x.Sort)
+		}
+		return TV{T: Ite(App(">=", SBool, x, Term{"0.0", SReal}), App("to_int", SInt, x), App("-", SInt, App("to_int", SInt, App("-", SReal, x)))), Ty: intT}
 	case "min":
 		need(2)
 		return TV{T: Ite(App("<=", SBool, argOf(0).T, argOf(1).T), argOf(0).T, argOf(1).T), Ty: intT}
@@ -847,4 +860,26 @@ func (u *Unit) declareSpecFun(sf *SpecFun, e *Env) {
 		body.T = nilOf(rs)
 	}
 	u.defs.DeclareFun(name, fmt.Sprintf("(define-fun %s (%s) %s %s)", name, strings.Join(ps, " "), rs, body.T.S))
+}
+
+// preciseBasic maps the name of a sized integer type to that exact type (resolveType folds all integer names into int,
+// which is right for sorts but wrong for dynamic type identities).
+func preciseBasic(name string) types.Type {
+	switch name {
+	case "int64":
+		return types.Typ[types.Int64]
+	case "uint64":
+		return types.Typ[types.Uint64]
+	case "int32":
+		return types.Typ[types.Int32]
+	case "uint32":
+		return types.Typ[types.Uint32]
+	case "uint16":
+		return types.Typ[types.Uint16]
+	case "uint8", "byte":
+		return types.Typ[types.Uint8]
+	case "uint":
+		return types.Typ[types.Uint]
+	}
+	return nil
 }
